@@ -102,6 +102,8 @@ let () =
              | Some lv -> Some (lv, e.[l - 1] = '+') | None -> None)
              (String.split_on_char ',' entries_s) in
          let all_m = m.m_prefix && m.m_postfix && m.m_infix in
+         let ne = List.length entries in
+         if ne = 0 || ne > 8 then (if impl <> "N=-" then report "model" case impl "N=-") else
          (match new_const entries with
           | Inr e -> let model = "N=" ^ show_cpanic e in if impl <> model then report "model" case impl model
           | Inl ct ->
